@@ -664,6 +664,9 @@ class SeqTheory(BaseTheory):
         return t
 
     def qf_valid(self, ex, f):
+        return ex.path.cached(lambda: self._qf_valid(ex, f))
+
+    def _qf_valid(self, ex, f):
         s = z3.Solver()
         s.set("timeout", 400)
         for g in ex.st.pc:
@@ -1106,8 +1109,7 @@ class SeqTheory(BaseTheory):
         pr = ex.fv.prover
 
         def valid(f):
-            st, _, _ = pr.prove(ex.st.pc, f, timeout_ms=3000)
-            return st == "discharged"
+            return ex.path.cached(lambda: pr.prove(ex.st.pc, f, timeout_ms=3000)[0] == "discharged")
 
         if isinstance(elt, TupV):
             try:
